@@ -75,7 +75,11 @@ func (w *Writer) Write(data []byte) (n int, err error) {
 		return n, w.err
 	}
 	if w.w != nil {
-		return w.w.Write(data)
+		n, err = w.w.Write(data)
+		if err != nil {
+			w.err = err
+		}
+		return n, err
 	}
 	n = len(data)
 	var num int
@@ -107,7 +111,8 @@ func (w *Writer) Flush() (err error) {
 		return w.err
 	}
 	if w.w != nil {
-		return w.w.Flush()
+		w.err = w.w.Flush()
+		return w.err
 	}
 	w.err = w.lc.Flush()
 	return w.err
@@ -121,9 +126,10 @@ func (w *Writer) Close() (err error) {
 		return w.err
 	}
 	if w.w != nil {
-		return w.w.Close()
+		w.err = w.w.Close()
+	} else {
+		w.err = w.lc.Close()
 	}
-	w.err = w.lc.Close()
 	if w.err != nil {
 		return w.err
 	}
